@@ -212,7 +212,9 @@ def gen_text(rng: random.Random, allow_colon: bool, max_words: int = 5) -> str:
 
 
 def gen_int_text(rng: random.Random) -> typing.Tuple[str, int]:
-    v = _pick_weighted(rng, [(rng.randint(-9, 9), 3), (rng.randint(-100000, 100000), 3), (rng.randint(-10 ** 12, 10 ** 12), 1)])
+    # identifiers such as UWI / API / licence numbers are integers of 16 and more digits (beyond 2**53: not exact in a double)
+    v = _pick_weighted(rng, [(rng.randint(-9, 9), 3), (rng.randint(-100000, 100000), 3), (rng.randint(-10 ** 12, 10 ** 12), 1),
+                             (rng.choice([2 ** 53 + 1, 100123456789012345, 9007199254740993, -(2 ** 62) - 1, 10 ** 20 + 7]), 1)])
     r = rng.random()
     if r < 0.75:
         t = str(v)
@@ -297,6 +299,16 @@ def gen_data_column(rng: random.Random, n: int, null, p_unparseable: float) -> t
         if r < p_unparseable + 0.08:
             out.append(_null_token(rng, null))
             continue
+        if r < p_unparseable + 0.11:
+            # ordinary numbers whose text begins like the null value's text
+            nt = _null_token(rng, null)
+            t = nt.rstrip('0') + rng.choice(['01', '37', '9', '001', '5E-2', '12e1']) if '.' in nt else nt + rng.choice(['1', '.5', '25', '0.75'])
+            try:
+                if float(t) != float(null) and float(t) == float(t) and abs(float(t)) != float('inf'):
+                    out.append(t)
+                    continue
+            except ValueError:
+                pass
         dec = Decimal(rng.randint(-scale, scale)).scaleb(-d)
         st = style if style != 'mixed' else rng.choice(['fixed', 'exp', 'odd'])
         if st == 'fixed':
